@@ -505,4 +505,89 @@ theorem exec_good : ∀ (f : Nat), IH sc f := by
             refine good_ite (fun _ => good_leaf hle1 hg1 hwf1) (fun hd2 => ?_)
             refine (ih (.dloop ob sup0 saveR) { w1 with restrict := saveR } (by exact hI1) ⟨hle1 _ hob, by simpa using hd2, fun s hs => hle1 _ (hsup s hs)⟩ (by exact hwf1) (by exact hg1)).mono hle1
 
+/-- whatever is closed under the three state changes of the LPC probe survives it -/
+theorem probe_pres (Q : World → Prop) (hemit : ∀ w s, Q w → Q (emit w s))
+    (hlk : ∀ (w : World) nm, Q w → Q { w with c := (lookupC w.c nm).1 })
+    (hfl : ∀ (w : World) s, Q w → Q { w with c := (findLivingC w.c s).1 }) {w : World} (hw : Q w) : Q (probe w) := by
+  unfold probe
+  apply hemit; apply hemit
+  generalize (List.range w.c.n).drop 2 = ids
+  suffices h : ∀ (ids : List Nat) (w : World), Q w → Q (ids.foldl (fun w i =>
+      let o := w.c.objs i
+      let r := lookupC w.c o.name
+      let w := { w with c := r.1 }
+      let found := s!"{ooid (r.2.bind (readRef w.c))}/{if r.2.isSome then 1 else 0}"
+      if o.destructed then emit w s!"P {oid i} ref=0 find={found}"
+      else
+        let fl := match o.living with
+          | none => (w, "-")
+          | some s =>
+            let r := findLivingC w.c s
+            ({ w with c := r.1 }, ooid (r.2.bind (readRef r.1)))
+        let w := fl.1
+        let o := w.c.objs i
+        emit w s!"P {oid i} ref={oid i} find={found} env={ooid (o.super.bind (readRef w.c))} inv={joinIds (o.contains.filterMap (readRef w.c))} walk={joinIds (invWalk w.c (w.c.n + 1) o.contains.head?)} fl={fl.2}") w) from h ids w hw
+  intro ids
+  induction ids with
+  | nil => intro w hw; exact hw
+  | cons i rest ih =>
+    intro w hw
+    simp only [List.foldl_cons]
+    apply ih
+    have h1 := hlk w (w.c.objs i).name hw
+    split
+    · exact hemit _ _ h1
+    · apply hemit
+      split
+      · exact h1
+      · exact hfl _ _ h1
+
+/-- the state between two top-level commands -/
+structure WorldOk (w : World) : Prop where
+  inv : Inv w.c
+  wf : WorldWf w
+  ghost : w.initBad = false
+
+theorem init_ok : WorldOk World.init :=
+  { inv := init_inv, wf := fun g h => by simp [World.init] at h, ghost := rfl }
+
+/-- outcome of a top-level command -/
+def topOut (sc : Scripts) (w : World) : Cmd → Out
+  | .top op => if ¬ (1 < w.c.n ∧ (w.c.objs 1).destructed = false) then .ok else (exec sc topFuel (.ops 1 none [op]) w).out
+  | _ => .ok
+
+theorem stepCmd_ok (sc : Scripts) {w : World} (cmd : Cmd) (hw : WorldOk w) :
+    WorldOk (stepCmd sc w cmd) ∧ topOut sc w cmd ≠ .crash := by
+  cases cmd with
+  | top op =>
+    simp only [stepCmd, topOut]
+    split
+    · exact ⟨⟨hw.inv, hw.wf, hw.ghost⟩, by simp⟩
+    · rename_i hm
+      have hm' : 1 < w.c.n ∧ (w.c.objs 1).destructed = false := by
+        apply Classical.byContradiction; intro hc; exact hm hc
+      have g := exec_good sc topFuel (.ops 1 none [op]) w hw.inv (live_nf hw.inv hm'.1 hm'.2) hw.wf hw.ghost
+      have hI := exec_inv sc topFuel (.ops 1 none [op]) w hw.inv
+      refine ⟨?_, g.nocrash⟩
+      split
+      · exact ⟨hI, g.wf, g.ghost⟩
+      · exact ⟨hI, fun gg hgg => g.le _ (hw.wf gg hgg), g.ghost⟩
+      · exact ⟨hI, g.wf, g.ghost⟩
+  | snap => exact ⟨⟨hw.inv, hw.wf, hw.ghost⟩, by simp [topOut]⟩
+  | probe =>
+    refine ⟨?_, by simp [topOut]⟩
+    have := probe_pres (fun w' => Inv w'.c ∧ NFle w.c w'.c ∧ w'.cg = w.cg ∧ w'.initBad = w.initBad)
+      (fun w' s h => h)
+      (fun w' nm h => ⟨lookupC_inv nm h.1, h.2.1.trans (nfle_lookupC _ nm), h.2.2.1, h.2.2.2⟩)
+      (fun w' s h => ⟨findLivingC_inv s h.1, h.2.1.trans (nfle_findLivingC _ s), h.2.2.1, h.2.2.2⟩)
+      (w := w) ⟨hw.inv, NFle.refl _, rfl, rfl⟩
+    exact ⟨this.1, fun g hg => this.2.1 _ (hw.wf g (by rw [← this.2.2.1]; exact hg)), by show (probe w).initBad = false; rw [this.2.2.2]; exact hw.ghost⟩
+  | gc =>
+    exact ⟨⟨gc_inv hw.inv, fun g h => by simp [stepCmd] at h, hw.ghost⟩, by simp [topOut]⟩
+
+theorem runCmds_ok (sc : Scripts) (cmds : List Cmd) : ∀ (w : World), WorldOk w → WorldOk (runCmds sc w cmds) := by
+  induction cmds with
+  | nil => intro w hw; exact hw
+  | cons cmd rest ih => intro w hw; exact ih _ (stepCmd_ok sc cmd hw).1
+
 end NV.C08
